@@ -29,6 +29,8 @@ STD_ORIG = {f: getattr(_stdrandom, f) for f in STD_FN}
 STD_SEED = _stdrandom.seed
 ORIG_URANDOM = os.urandom
 
+YIELD_HOOK = None      # set by mc.interleave: every hooked draw is a yield point of the thread scheduler
+
 QLO = 2.0 ** -30
 QHI = 1 - 2.0 ** -30
 
@@ -53,6 +55,7 @@ class Ctl:
         self.taken = 0           # number of deviations actually applied
         self.active = True
         self.in_objective = 0
+        self.entropy_calls = 0
 
     # a choice point of kind 'sched' / 'worker' with n options; returns the chosen option index
     def choose(self, tag, n):
@@ -174,6 +177,8 @@ def _mk_hook(f):
     orig = ORIG[f]
 
     def hook(*a, **k):
+        if YIELD_HOOK is not None:
+            YIELD_HOOK()
         default = orig(*a, **k)
         c = CTL
         if not c.active:
@@ -194,9 +199,14 @@ def _mk_hook(f):
 
 def _seed_hook(s=None):
     if s is None:
-        # N2: the entropy answer is the harness seed
-        ORIG_SEED(CTL.seed)
-        STD_SEED(CTL.seed)   # the ambient stdlib generator is put in a known state too (its *use* is tripwired)
+        # N2: the entropy answer is supplied by the harness: the k-th request of an execution gets a distinct,
+        # reproducible answer (the first one is the harness seed itself)
+        k = CTL.entropy_calls if CTL.active else 0
+        if CTL.active:
+            CTL.entropy_calls += 1
+        ORIG_SEED((CTL.seed + 1000003 * k) % (2 ** 32))
+        if k == 0:
+            STD_SEED(CTL.seed)   # the ambient stdlib generator is put in a known state too (its *use* is tripwired)
         return
     ORIG_SEED(s)
 
